@@ -369,8 +369,11 @@ def canon(x):
     return json.dumps(x, sort_keys=True, separators=(",", ":"))
 
 
+ALT = os.path.realpath(REPO) != "/repo"   # examining another tree (mutation experiments): keep /verif/evidence clean
+
+
 def write_replay(pid, seed, n, payload):
-    d = os.path.join(VERIF, "replays")
+    d = os.path.join(BUILD, "alt-replays") if ALT else os.path.join(VERIF, "replays")
     os.makedirs(d, exist_ok=True)
     fn = os.path.join(d, f"{pid}-{seed}-{n}.json")
     json.dump(payload, open(fn, "w"), indent=1, sort_keys=True)
@@ -562,8 +565,9 @@ def run_check(pid: str, tier: str, seed: int, replay: str | None = None) -> int:
     ev = {"property_id": pid, "tier": tier, "seed": seed, "level": prop.LEVEL, "coverage": cov,
           "assumptions": list(prop.ASSUMPTIONS), "wall_s": round(time.time() - t0, 2),
           "violations": violations}
-    os.makedirs(os.path.join(VERIF, "evidence"), exist_ok=True)
-    json.dump(ev, open(os.path.join(VERIF, "evidence", f"{pid}.json"), "w"), indent=1, sort_keys=True)
+    evdir = os.path.join(BUILD, "alt-evidence") if ALT else os.path.join(VERIF, "evidence")
+    os.makedirs(evdir, exist_ok=True)
+    json.dump(ev, open(os.path.join(evdir, f"{pid}.json"), "w"), indent=1, sort_keys=True)
 
     for ln in lines:
         print(ln)
